@@ -1280,6 +1280,10 @@ pub(crate) fn check_spec_reserved_keys(key: &[u8], mut value: &[u8]) -> Result<(
             #[cfg(feature = "rust-secp256k1")]
             <Enr<secp256k1::SecretKey>>::decode(&mut value)?;
         }
+        b"ed25519" => {
+            // the decoder only accepts a byte string under this key
+            Bytes::decode(&mut value)?;
+        }
         _ => return Ok(()),
     };
     Ok(())
